@@ -626,4 +626,255 @@ def next_irreducible (p : Int) (fuel : Nat) (a : List Int) : Except TErr (List I
       (fun r_ => .ok r_)
       (fun _ => .error TErr.fuel)
 
+-- ≙ gfpx.py:938 `_degree`
+def b_degree (a : Int) : Except TErr (Int) :=
+  .ok ((((NumTh.bitLength a : Nat) : Int) - 1))
+
+-- ≙ gfpx.py:1007 `_sq`
+def b_sq (a : Int) : Except TErr (Int) :=
+  let d := 1
+  let c := 0
+  onLoop (loop (σ := Int × Int × Int) (ρ := Empty) TErr.fuel (fun st_ => match st_ with
+      | (c, d, a) =>
+        if a ≠ 0 then
+          let c :=
+            if (a % 2) ≠ 0 then
+              let c := (pyOr c d)
+              (c)
+            else
+              (c)
+          let d := (pyShl d 2)
+          let a := (pyShr a 1)
+          .ok (.next (c, d, a))
+        else
+          .ok (.brk (c, d, a))) (a.toNat + 1) (c, d, a))
+    (fun r_ => nomatch r_)
+    (fun st_ => match st_ with
+      | (c, d, a) =>
+        .ok (c))
+
+-- ≙ gfpx.py:990 `_mul`
+def b_mul (a : Int) (b : Int) : Except TErr (Int) :=
+  if a = b then
+    match b_sq a with
+    | .error exc_ => .error exc_
+    | .ok v1 =>
+      .ok (v1)
+  else
+    let (a, b) :=
+      if a < b then
+        let (a, b) := (b, a)
+        (a, b)
+      else
+        (a, b)
+    let c := 0
+    onLoop (loop (σ := Int × Int × Int) (ρ := Empty) TErr.fuel (fun st_ => match st_ with
+        | (c, a, b) =>
+          if b ≠ 0 then
+            let c :=
+              if (b % 2) ≠ 0 then
+                let c := (pyXor c a)
+                (c)
+              else
+                (c)
+            let a := (pyShl a 1)
+            let b := (pyShr b 1)
+            .ok (.next (c, a, b))
+          else
+            .ok (.brk (c, a, b))) (b.toNat + 1) (c, a, b))
+      (fun r_ => nomatch r_)
+      (fun st_ => match st_ with
+        | (c, a, b) =>
+          .ok (c))
+
+-- ≙ gfpx.py:1027 `_mod`
+def b_mod (a : Int) (b : Int) : Except TErr (Int) :=
+  if b = 0 then
+    .error .zeroDivisionError
+  else
+    let m := ((NumTh.bitLength a : Nat) : Int)
+    let n := ((NumTh.bitLength b : Nat) : Int)
+    if m < n then
+      .ok (a)
+    else
+      if (m - n) < 0 then .error .valueError else
+      let b := (pyShl b (m - n))
+      let a := (pyXor a b)
+      match pyFor (ε := TErr) (σ := Int × Int) (pyRangeDown (m - 2) (n - 2)) (b, a) (fun it_ st_ => match it_, st_ with
+          | i, (b, a) =>
+            let b := (pyShr b 1)
+            if i < 0 then .error .valueError else
+            if ((pyShr a i) % 2) ≠ 0 then
+              let a := (pyXor a b)
+              .ok (b, a)
+            else
+              .ok (b, a)) with
+      | .error exc_ => .error exc_
+      | .ok (b, a) =>
+        .ok (a)
+
+-- ≙ gfpx.py:1048 `_divmod`
+def b_divmod (a : Int) (b : Int) : Except TErr ((Int × Int)) :=
+  if b = 0 then
+    .error .zeroDivisionError
+  else
+    let m := ((NumTh.bitLength a : Nat) : Int)
+    let n := ((NumTh.bitLength b : Nat) : Int)
+    if m < n then
+      .ok ((0, a))
+    else
+      if (m - n) < 0 then .error .valueError else
+      let b := (pyShl b (m - n))
+      let q := 1
+      let a := (pyXor a b)
+      match pyFor (ε := TErr) (σ := Int × Int × Int) (pyRangeDown (m - 2) (n - 2)) (b, q, a) (fun it_ st_ => match it_, st_ with
+          | i, (b, q, a) =>
+            let b := (pyShr b 1)
+            let q := (pyShl q 1)
+            if i < 0 then .error .valueError else
+            if ((pyShr a i) % 2) ≠ 0 then
+              let q := (pyXor q 1)
+              let a := (pyXor a b)
+              .ok (b, q, a)
+            else
+              .ok (b, q, a)) with
+      | .error exc_ => .error exc_
+      | .ok (b, q, a) =>
+        .ok ((q, a))
+
+-- ≙ gfpx.py:1069 `_gcd`
+def b_gcd (a : Int) (b : Int) : Except TErr (Int) :=
+  onLoop (loop (σ := Int × Int) (ρ := Empty) TErr.fuel (fun st_ => match st_ with
+      | (a, b) =>
+        if b ≠ 0 then
+          match b_mod a b with
+          | .error exc_ => .error exc_
+          | .ok v1 =>
+            let (a, b) := (b, v1)
+            .ok (.next (a, b))
+        else
+          .ok (.brk (a, b))) (NumTh.bitLength b + 1) (a, b))
+    (fun r_ => nomatch r_)
+    (fun st_ => match st_ with
+      | (a, b) =>
+        .ok (a))
+
+-- ≙ gfpx.py:1075 `_gcdext`
+def b_gcdext (a : Int) (b : Int) : Except TErr ((Int × Int × Int)) :=
+  let (s, s1) := (1, 0)
+  let (t, t1) := (0, 1)
+  onLoop (loop (σ := Int × Int × Int × Int × Int × Int) (ρ := Empty) TErr.fuel (fun st_ => match st_ with
+      | (a, b, s, s1, t, t1) =>
+        if b ≠ 0 then
+          match b_divmod a b with
+          | .error exc_ => .error exc_
+          | .ok (v1, v2) =>
+            let (a, (q, b)) := (b, (v1, v2))
+            match b_mul q s1 with
+            | .error exc_ => .error exc_
+            | .ok v3 =>
+              let (s, s1) := (s1, (pyXor s v3))
+              match b_mul q t1 with
+              | .error exc_ => .error exc_
+              | .ok v4 =>
+                let (t, t1) := (t1, (pyXor t v4))
+                .ok (.next (a, b, s, s1, t, t1))
+        else
+          .ok (.brk (a, b, s, s1, t, t1))) (NumTh.bitLength b + 1) (a, b, s, s1, t, t1))
+    (fun r_ => nomatch r_)
+    (fun st_ => match st_ with
+      | (a, b, s, s1, t, t1) =>
+        .ok ((a, s, t)))
+
+-- ≙ gfpx.py:1085 `_invert`
+def b_invert (a : Int) (b : Int) : Except TErr (Int) :=
+  if b = 0 then
+    .error .zeroDivisionError
+  else
+    let (s, s1) := (1, 0)
+    onLoop (loop (σ := Int × Int × Int × Int) (ρ := Empty) TErr.fuel (fun st_ => match st_ with
+        | (a, b, s, s1) =>
+          if b ≠ 0 then
+            match b_divmod a b with
+            | .error exc_ => .error exc_
+            | .ok (v1, v2) =>
+              let (a, (q, b)) := (b, (v1, v2))
+              match b_mul q s1 with
+              | .error exc_ => .error exc_
+              | .ok v3 =>
+                let (s, s1) := (s1, (pyXor s v3))
+                .ok (.next (a, b, s, s1))
+          else
+            .ok (.brk (a, b, s, s1))) (NumTh.bitLength b + 1) (a, b, s, s1))
+      (fun r_ => nomatch r_)
+      (fun st_ => match st_ with
+        | (a, b, s, s1) =>
+          if a ≠ 1 then
+            .error .zeroDivisionError
+          else
+            .ok (s))
+
+-- ≙ gfpx.py:1099 `_is_irreducible`
+def b_is_irreducible (a : Int) : Except TErr (Bool) :=
+  if a ≤ 1 then
+    .ok (false)
+  else
+    let b := 2
+    match b_degree a with
+    | .error exc_ => .error exc_
+    | .ok v1 =>
+      let stop2 := (v1 / 2)
+      let i_ := 0
+      onLoop (loop (σ := Int × Int) (ρ := Bool) TErr.fuel (fun st_ => match st_ with
+          | (b, i_) =>
+            if i_ < stop2 then
+              match b_mul b b with
+              | .error exc_ => .error exc_
+              | .ok v3 =>
+                let b := v3
+                match b_mod b a with
+                | .error exc_ => .error exc_
+                | .ok v4 =>
+                  let b := v4
+                  match b_gcd (pyXor b 2) a with
+                  | .error exc_ => .error exc_
+                  | .ok v5 =>
+                    if v5 ≠ 1 then
+                      .ok (.ret false)
+                    else
+                      let i_ := (i_ + 1)
+                      .ok (.next (b, i_))
+            else
+              .ok (.brk (b, i_))) ((stop2 - i_).toNat + 1) (b, i_))
+        (fun r_ => .ok r_)
+        (fun st_ => match st_ with
+          | (b, i_) =>
+            .ok (true))
+
+-- ≙ gfpx.py:1114 `_next_irreducible`
+def b_next_irreducible (fuel : Nat) (a : Int) : Except TErr (Int) :=
+  match (show Except TErr (Int) from
+    if a ≤ 1 then
+      let a := 2
+      .ok (a)
+    else
+      let a := (a + (1 + (a % 2)))
+      onLoop (loop (σ := Int) (ρ := Empty) TErr.fuel (fun st_ => match st_ with
+          | a =>
+            match b_is_irreducible a with
+            | .error exc_ => .error exc_
+            | .ok v1 =>
+              if ¬ (v1 = true) then
+                let a := (a + 2)
+                .ok (.next a)
+              else
+                .ok (.brk a)) (fuel) a)
+        (fun r_ => nomatch r_)
+        (fun st_ => match st_ with
+          | a =>
+            .ok (a))) with
+  | .error exc_ => .error exc_
+  | .ok a =>
+    .ok (a)
+
 end MpycV.GfpxMirror
